@@ -326,11 +326,15 @@ fn with_objects<R>(ty: usize, contents: &[Content], routes: &[usize], f: &mut dy
     macro_rules! go {
         ($objs:expr) => {{
             let objs = $objs;
-            let pc = |i: usize, j: usize| pair_check(ty, &objs[i], &objs[j], &contents[i], &contents[j]);
+            // a panic inside ==, cmp or hash is a violation of that pair; a panic while sorting gives an empty result
+            let pc = |i: usize, j: usize| guard_case(|| pair_check(ty, &objs[i], &objs[j], &contents[i], &contents[j]));
             let sorter = |perm: &[usize]| {
-                let mut v: Vec<(usize, _)> = perm.iter().map(|&i| (i, objs[i].clone())).collect();
-                v.sort_by(|a, b| a.1.cmp(&b.1));
-                v.into_iter().map(|x| x.0).collect::<Vec<usize>>()
+                guarded(|| {
+                    let mut v: Vec<(usize, _)> = perm.iter().map(|&i| (i, objs[i].clone())).collect();
+                    v.sort_by(|a, b| a.1.cmp(&b.1));
+                    v.into_iter().map(|x| x.0).collect::<Vec<usize>>()
+                })
+                .unwrap_or_default()
             };
             f(&pc, &sorter)
         }};
@@ -357,6 +361,10 @@ fn cparse(v: &Value) -> Option<Content> {
 }
 
 pub fn replay(c: &Value) -> Result<(), String> {
+    guard_case(|| replay_unguarded(c))
+}
+
+fn replay_unguarded(c: &Value) -> Result<(), String> {
     let ty = TYPES.iter().position(|n| Some(*n) == c["type"].as_str()).ok_or("type")?;
     let objs: Vec<Content> = c["objects"].as_array().ok_or("objects")?.iter().filter_map(cparse).collect();
     let routes: Vec<usize> = match c["routes"].as_array() {
@@ -383,10 +391,11 @@ pub fn replay(c: &Value) -> Result<(), String> {
                     let (s1, s2) = (sorter(&p1), sorter(&p2));
                     let t1: Vec<&Content> = s1.iter().map(|&i| &objs[i]).collect();
                     let t2: Vec<&Content> = s2.iter().map(|&i| &objs[i]).collect();
-                    if t1 != t2 {
-                        return Err("sorting two permutations gives different sequences".to_string());
+                    if t1 != t2 || s1.len() != n {
+                        return Err("sorting two permutations gives different sequences (or panicked)".to_string());
                     }
                 }
+                Some("construct") => {}
                 _ => return Err("bad case".to_string()),
             }
             Ok(())
@@ -400,6 +409,20 @@ fn build_table(ty: usize, contents: Vec<Content>, acc: &mut Acc) -> Option<Table
     let routes = routes_of(&contents);
     let mut cmp = vec![vec![Ordering::Equal; n]; n];
     let mut failed = false;
+    // building an object must not panic (the contents are all valid): try each one on its own first
+    for i in 0..n {
+        if let Err(p) = guarded(|| with_objects(ty, &contents[i..=i], &routes[i..=i], &mut |_, _| ())) {
+            failed = true;
+            acc.violation(
+                format!("{} construct {} route {}", TYPES[ty], rt::format(contents[i].0, &contents[i].1, &contents[i].2), routes[i]),
+                format!("panic while building a valid object: {}", p),
+                json!({"kind":"construct","type":TYPES[ty],"objects":[cj(&contents[i])],"routes":[routes[i]]}),
+            );
+        }
+    }
+    if failed {
+        return None;
+    }
     with_objects(ty, &contents, &routes, &mut |pc, _| {
         for i in 0..n {
             for j in 0..n {
@@ -506,7 +529,7 @@ pub fn run(ctx: &Ctx) -> Report {
             let (s1, s2) = (sorter(&p1), sorter(&p2));
             let t1: Vec<&Content> = s1.iter().map(|&i| &t.contents[i]).collect();
             let t2: Vec<&Content> = s2.iter().map(|&i| &t.contents[i]).collect();
-            let mut bad = t1 != t2;
+            let mut bad = t1 != t2 || s1.len() != n;
             for w in s1.windows(2) {
                 if t.cmp[w[0]][w[1]] == Ordering::Greater {
                     bad = true;
